@@ -146,6 +146,68 @@ impl C05 {
                 }
             }
         }
+        // (c) the saved store is modified (each kind of change that touches a stand-off member, one at a time), saved again under
+        //     the same name and reloaded: the files must follow the store
+        let mods: Vec<(&str, Box<dyn Fn(&mut AnnotationStore) -> Option<Result<(), StamError>>>)> = vec![
+            (
+                "remove_data",
+                Box::new(|s: &mut AnnotationStore| {
+                    let (set, d) = s.datasets().find_map(|ds| ds.data().next().map(|d| (ds.handle(), d.handle())))?;
+                    Some(s.remove_data(set, d, false))
+                }),
+            ),
+            (
+                "remove_key",
+                Box::new(|s: &mut AnnotationStore| {
+                    let (set, k) = s.datasets().find_map(|ds| ds.keys().next().map(|k| (ds.handle(), k.handle())))?;
+                    Some(s.remove_key(set, k, false))
+                }),
+            ),
+            (
+                "annotate-new-data",
+                Box::new(|s: &mut AnnotationStore| {
+                    let rid = s.resources().next()?.id()?.to_string();
+                    let sid = s.datasets().next()?.id()?.to_string();
+                    Some(s.annotate(AnnotationBuilder::new().with_id("zz-new").with_target(SelectorBuilder::resourceselector(rid)).with_data(sid, "zz-key", "zz-value")).map(|_| ()))
+                }),
+            ),
+        ];
+        for (mname, modify) in mods {
+            let mut st = match catch(|| AnnotationStore::from_file(&out, Config::default().with_use_include(true))) {
+                Ok(Ok(s)) => s,
+                _ => break,
+            };
+            // first save: everything is written and the members are marked unchanged
+            if !matches!(catch(|| st.save()), Ok(Ok(()))) {
+                break;
+            }
+            match catch(|| modify(&mut st)) {
+                Ok(Some(Ok(()))) => {}
+                _ => continue, // nothing to modify in this state, or the modification itself fails (C01/C02)
+            }
+            self.roundtrips.fetch_add(1, Ordering::Relaxed);
+            let want = ser_abstract(&st, true, true);
+            match catch(|| st.save()) {
+                Ok(Ok(())) => {}
+                Ok(Err(e)) => {
+                    report(rep, &format!("include-modify:{}", mname), RoundTripFail { symptom: format!("serialise-err:{}", err_class(&e)), detail: format!("{}", e) }, store, ord, case);
+                    continue;
+                }
+                Err(p) => {
+                    report(rep, &format!("include-modify:{}", mname), RoundTripFail { symptom: format!("serialise-panic:{}", msg_class(&p)), detail: String::new() }, store, ord, case);
+                    continue;
+                }
+            }
+            match catch(|| AnnotationStore::from_file(&out, Config::default().with_use_include(true))) {
+                Err(p) => report(rep, &format!("include-modify:{}", mname), RoundTripFail { symptom: format!("load-panic:{}", msg_class(&p)), detail: String::new() }, store, ord, case),
+                Ok(Err(e)) => report(rep, &format!("include-modify:{}", mname), RoundTripFail { symptom: format!("load-err:{}", err_class(&e)), detail: format!("{}", e) }, store, ord, case),
+                Ok(Ok(s3)) => {
+                    if let Some((section, detail)) = diff_ser(&want, &ser_abstract(&s3, true, true)) {
+                        report(rep, &format!("include-modify:{}", mname), RoundTripFail { symptom: format!("differs@{}:{}", section, diff_aspect(&detail)), detail }, store, ord, case);
+                    }
+                }
+            }
+        }
         if std::env::var("VERIF_KEEP_WORK").is_err() {
             let _ = std::fs::remove_dir_all(&dir);
         }
@@ -1234,7 +1296,7 @@ pub fn run(rep: &Reporter) -> Coverage {
         }),
     );
     cov.samples.push(json!({"substore": substore_layouts().last().map(|l| l.to_json()), "then": "make store -> remove -> observe -> save -> check files -> from_file -> compare -> save -> compare files"}));
-    cov.rule = "every distinct state of the history exploration (as C01) is written with to_json_string (pretty and compact), read back with from_str and compared: resources+texts, datasets/keys/data with typed values, annotations in order with ids, target kind, referenced items (by id, id-less items by rank), offsets and alignment mode, data references; the reloaded store must serialise to the identical string; states up to the file depth are additionally laid out with @include stand-off files, loaded, saved again (members must stay stand-off) and reloaded; value sweep: one store per value of a menu (all DataValue types, nested lists, datetimes with offsets and sub-seconds, integer range ends, awkward strings of length <= 2 over 12 symbols) and per awkward string used as key id / data id / annotation id; sub-store family: the product of {how the sub-store is attached: hand-written @include / add_substore / add_new_substore+associate_substore, the latter two each also with the root's resource and dataset first} x {sub-store resource inline / stand-off / stand-off file shared with the root} x {same for its dataset} x {root annotation on the sub-store's resource} x {root annotation on a sub-store annotation: none / without / with offset} x {plain texts / multi-byte texts / multi-byte texts with end-aligned offsets} x {id-less annotations and data} x {no removal / root annotation removed / sub-store annotation removed}; per layout the store must equal the same items made in a plain store and have the membership the layout defines, then save -> the root file still @includes the sub-store and repeats none of its items -> from_file -> same abstract content (annotations in order) and same sub-store membership (per sub-store: id, file, annotations, resources, datasets; items of no sub-store; each item's own answer) -> save again -> every file byte-identical; non-trivial = states with a removed and a live annotation".into();
+    cov.rule = "every distinct state of the history exploration (as C01) is written with to_json_string (pretty and compact), read back with from_str and compared: resources+texts, datasets/keys/data with typed values, annotations in order with ids, target kind, referenced items (by id, id-less items by rank), offsets and alignment mode, data references; the reloaded store must serialise to the identical string; states up to the file depth are additionally laid out with @include stand-off files, loaded, saved again (members must stay stand-off) and reloaded, then modified (a data item removed / a key removed / an annotation with new data added), saved and reloaded once more; value sweep: one store per value of a menu (all DataValue types, nested lists, datetimes with offsets and sub-seconds, integer range ends, awkward strings of length <= 2 over 12 symbols) and per awkward string used as key id / data id / annotation id; sub-store family: the product of {how the sub-store is attached: hand-written @include / add_substore / add_new_substore+associate_substore, the latter two each also with the root's resource and dataset first} x {sub-store resource inline / stand-off / stand-off file shared with the root} x {same for its dataset} x {root annotation on the sub-store's resource} x {root annotation on a sub-store annotation: none / without / with offset} x {plain texts / multi-byte texts / multi-byte texts with end-aligned offsets} x {id-less annotations and data} x {no removal / root annotation removed / sub-store annotation removed}; per layout the store must equal the same items made in a plain store and have the membership the layout defines, then save -> the root file still @includes the sub-store and repeats none of its items -> from_file -> same abstract content (annotations in order) and same sub-store membership (per sub-store: id, file, annotations, resources, datasets; items of no sub-store; each item's own answer) -> save again -> every file byte-identical; non-trivial = states with a removed and a live annotation".into();
     cov.assumptions = vec![
         "items without public id are compared by rank, so a renumbering of handles on reload is not a difference".into(),
         "NaN / infinite floats are left out of the JSON sweep (no JSON form); they are in the CBOR sweep".into(),
